@@ -134,10 +134,10 @@ func (t *Trace) Final() *State {
 
 // Opts controls an execution.
 type Opts struct {
-	CaptureAll bool // capture a State after every block (else only before/after the last)
-	CheckFirst bool // issue CheckTx right before every DeliverTx
-	KeepNode   bool
-	NoDisk     bool // skip the fresh-from-disk export comparison
+	CaptureAll bool   // capture a State after every block (else only before/after the last)
+	CheckFirst bool   // issue CheckTx right before every DeliverTx
+	KeepNode   bool   // leave the node in Trace.Node (caller releases it)
+	NoDisk     bool   // skip the fresh-from-disk export comparison
 	Pre        *State // state before the last block, if the caller already has it (same history prefix)
 }
 
@@ -178,24 +178,170 @@ func Capture(n *lab.Node, apphash []byte, noDisk bool) *State {
 	return s
 }
 
+// Runner executes blocks of a world one after the other on one node.
+type Runner struct {
+	W         *worlds.World
+	N         *lab.Node
+	O         Opts
+	Tr        *Trace
+	delivered [][]byte
+	firstResp map[string]*abci.ResponseDeliverTx
+}
+
+// NewRunner starts a node for the world (after InitChain or from the warm-up checkpoint).
+func NewRunner(w *worlds.World, o Opts) *Runner {
+	r := &Runner{W: w, O: o, Tr: &Trace{W: w}, firstResp: map[string]*abci.ResponseDeliverTx{}}
+	n, f := startNode(w)
+	r.N = n
+	if f != nil {
+		r.Tr.Fault = f
+	}
+	return r
+}
+
+// fail records a fault of the block being executed.
+func (r *Runner) fail(st *Step, f *lab.Fault) bool {
+	st.Obs.Fault = f
+	r.Tr.Steps = append(r.Tr.Steps, *st)
+	r.Tr.Fault = f
+	return false
+}
+
+// Open executes everything of a block up to and including EndBlock. On success the step is
+// returned (not yet appended to the trace); on a fault it is appended and ok is false.
+func (r *Runner) Open(b Block) (st *Step, ok bool) {
+	n, w := r.N, r.W
+	if b.Restart {
+		if f := n.Restart(); f != nil {
+			r.Tr.Fault = f
+			return nil, false
+		}
+	}
+	es := w.Envs[b.Env]
+	// fast-forward macro step: FF empty default blocks before the block proper
+	for i := 0; i < es.FF; i++ {
+		fo := n.RunBlock(lab.Env{}, nil)
+		if fo.Fault != nil {
+			st = &Step{Block: b, Height: fo.Height, Obs: fo}
+			r.Tr.Steps = append(r.Tr.Steps, *st)
+			r.Tr.Fault = fo.Fault
+			return st, false
+		}
+	}
+	st = &Step{Block: b, Height: n.Height + 1}
+	env := es.Env
+	if es.Dyn != nil {
+		env = es.Dyn(n)
+	}
+	ob := &lab.BlockObs{Height: n.Height + 1}
+	st.Obs = ob
+	if f := n.Begin(env); f != nil {
+		return st, r.fail(st, f)
+	}
+	ob.Time = n.LastTime
+	for _, ti := range b.Txs {
+		t := &w.Menu[ti]
+		var bytes []byte
+		rec := TxRec{Idx: ti, T: t}
+		if t.Replay > 0 {
+			if len(r.delivered) < t.Replay {
+				st.Skipped = append(st.Skipped, ti)
+				continue
+			}
+			bytes = r.delivered[len(r.delivered)-t.Replay]
+		} else if t.FixedBytes != nil {
+			bytes = t.FixedBytes
+		} else {
+			rec.Sender = t.Sender()
+			rec.NonceBefore = n.App.CurrentState().Accounts().GetNonce(rec.Sender)
+			bytes = renderCached(t, rec.NonceBefore)
+		}
+		rec.Bytes = bytes
+		if fr, ok := r.firstResp[string(bytes)]; ok {
+			rec.IsReplay = true
+			rec.FirstResp = fr
+		}
+		if t.Replay > 0 || t.FixedBytes != nil {
+			// sender from the bytes, if they decode
+			if dtx, err := lab.Decode(bytes); err == nil {
+				if s, err := dtx.Sender(); err == nil {
+					rec.Sender = s
+					rec.NonceBefore = n.App.CurrentState().Accounts().GetNonce(s)
+				}
+			}
+		}
+		if r.O.CheckFirst {
+			cr, f := n.Check(bytes)
+			if f != nil {
+				st.Txs = append(st.Txs, rec)
+				return st, r.fail(st, f)
+			}
+			rec.Check = &cr
+		}
+		rec.RewardsBefore = new(big.Int).Set(n.App.GetCurrentRewards())
+		resp, f := n.Deliver(bytes)
+		rec.Resp = resp
+		ob.Txs = append(ob.Txs, lab.TxObs{Bytes: bytes, Resp: resp})
+		if f != nil {
+			st.Txs = append(st.Txs, rec)
+			return st, r.fail(st, f)
+		}
+		rec.RewardsAfter = new(big.Int).Set(n.App.GetCurrentRewards())
+		rec.NonceAfter = n.App.CurrentState().Accounts().GetNonce(rec.Sender)
+		if _, ok := r.firstResp[string(bytes)]; !ok {
+			rc := resp
+			r.firstResp[string(bytes)] = &rc
+		}
+		r.delivered = append(r.delivered, bytes)
+		st.Txs = append(st.Txs, rec)
+	}
+	ob.Rewards = new(big.Int).Set(n.App.GetCurrentRewards())
+	var f *lab.Fault
+	if ob.End, f = n.End(); f != nil {
+		return st, r.fail(st, f)
+	}
+	return st, true
+}
+
+// Close commits an opened block and appends the step to the trace.
+func (r *Runner) Close(st *Step, capture bool) bool {
+	var f *lab.Fault
+	if st.Obs.AppHash, f = r.N.Commit(); f != nil {
+		return r.fail(st, f)
+	}
+	if capture {
+		st.Post = Capture(r.N, st.Obs.AppHash, r.O.NoDisk)
+	}
+	r.Tr.Steps = append(r.Tr.Steps, *st)
+	return true
+}
+
+// Block executes one whole block.
+func (r *Runner) Block(b Block, capture bool) bool {
+	st, ok := r.Open(b)
+	if !ok {
+		return false
+	}
+	return r.Close(st, capture)
+}
+
 // Exec runs a history on a fresh node.
 func Exec(w *worlds.World, h History, o Opts) *Trace {
-	tr := &Trace{W: w, Hist: h}
-	n, f := startNode(w)
+	r := NewRunner(w, o)
+	tr := r.Tr
+	tr.Hist = h
 	if o.KeepNode {
-		tr.Node = n
+		tr.Node = r.N
 	} else {
-		defer n.Release()
+		defer r.N.Release()
 	}
-	if f != nil {
-		tr.Fault = f
+	if tr.Fault != nil {
 		return tr
 	}
+	n := r.N
 	if len(h) == 0 || o.CaptureAll {
 		tr.Init = Capture(n, nil, o.NoDisk)
 	}
-	var delivered [][]byte
-	firstResp := map[string]*abci.ResponseDeliverTx{}
 	for bi, b := range h {
 		last := bi == len(h)-1
 		if last && !o.CaptureAll && o.Pre != nil {
@@ -208,113 +354,9 @@ func Exec(w *worlds.World, h History, o Opts) *Trace {
 				tr.Pre = Capture(n, tr.Steps[bi-1].Obs.AppHash, o.NoDisk)
 			}
 		}
-		if b.Restart {
-			if f := n.Restart(); f != nil {
-				tr.Fault = f
-				return tr
-			}
-		}
-		es := w.Envs[b.Env]
-		// fast-forward macro step: FF empty default blocks before the block proper
-		for i := 0; i < es.FF; i++ {
-			fo := n.RunBlock(lab.Env{}, nil)
-			if fo.Fault != nil {
-				st := Step{Block: b, Height: fo.Height, Obs: fo}
-				tr.Steps = append(tr.Steps, st)
-				tr.Fault = fo.Fault
-				return tr
-			}
-		}
-		st := Step{Block: b, Height: n.Height + 1}
-		env := es.Env
-		if es.Dyn != nil {
-			env = es.Dyn(n)
-		}
-		ob := &lab.BlockObs{Height: n.Height + 1}
-		st.Obs = ob
-		if ob.Fault = n.Begin(env); ob.Fault != nil {
-			tr.Steps = append(tr.Steps, st)
-			tr.Fault = ob.Fault
+		if !r.Block(b, last || o.CaptureAll) {
 			return tr
 		}
-		ob.Time = n.LastTime
-		for _, ti := range b.Txs {
-			t := &w.Menu[ti]
-			var bytes []byte
-			rec := TxRec{Idx: ti, T: t}
-			if t.Replay > 0 {
-				if len(delivered) < t.Replay {
-					st.Skipped = append(st.Skipped, ti)
-					continue
-				}
-				bytes = delivered[len(delivered)-t.Replay]
-			} else if t.FixedBytes != nil {
-				bytes = t.FixedBytes
-			} else {
-				rec.Sender = t.Sender()
-				rec.NonceBefore = n.App.CurrentState().Accounts().GetNonce(rec.Sender)
-				bytes = renderCached(t, rec.NonceBefore)
-			}
-			rec.Bytes = bytes
-			if fr, ok := firstResp[string(bytes)]; ok {
-				rec.IsReplay = true
-				rec.FirstResp = fr
-			}
-			if t.Replay > 0 || t.FixedBytes != nil {
-				// sender from the bytes, if they decode
-				if dtx, err := lab.Decode(bytes); err == nil {
-					if s, err := dtx.Sender(); err == nil {
-						rec.Sender = s
-						rec.NonceBefore = n.App.CurrentState().Accounts().GetNonce(s)
-					}
-				}
-			}
-			if o.CheckFirst {
-				cr, f := n.Check(bytes)
-				if f != nil {
-					ob.Fault = f
-					st.Txs = append(st.Txs, rec)
-					tr.Steps = append(tr.Steps, st)
-					tr.Fault = f
-					return tr
-				}
-				rec.Check = &cr
-			}
-			rec.RewardsBefore = new(big.Int).Set(n.App.GetCurrentRewards())
-			r, f := n.Deliver(bytes)
-			rec.Resp = r
-			ob.Txs = append(ob.Txs, lab.TxObs{Bytes: bytes, Resp: r})
-			if f != nil {
-				ob.Fault = f
-				st.Txs = append(st.Txs, rec)
-				tr.Steps = append(tr.Steps, st)
-				tr.Fault = f
-				return tr
-			}
-			rec.RewardsAfter = new(big.Int).Set(n.App.GetCurrentRewards())
-			rec.NonceAfter = n.App.CurrentState().Accounts().GetNonce(rec.Sender)
-			if _, ok := firstResp[string(bytes)]; !ok {
-				rc := r
-				firstResp[string(bytes)] = &rc
-			}
-			delivered = append(delivered, bytes)
-			st.Txs = append(st.Txs, rec)
-		}
-		ob.Rewards = new(big.Int).Set(n.App.GetCurrentRewards())
-		var f *lab.Fault
-		if ob.End, f = n.End(); f == nil {
-			ob.AppHash, f = n.Commit()
-		}
-		if f != nil {
-			ob.Fault = f
-			tr.Steps = append(tr.Steps, st)
-			tr.Fault = f
-			return tr
-		}
-		if last || o.CaptureAll {
-			st.Post = Capture(n, ob.AppHash, o.NoDisk)
-		}
-		tr.Steps = append(tr.Steps, st)
 	}
 	return tr
 }
